@@ -269,7 +269,7 @@ func TestC02_DuplicateAttr(t *testing.T) {
 		"body tree in which one (possibly nested) body defines one attribute name twice at arbitrary positions, in any layout; must be rejected with an error diagnostic; non-trivial = the duplicate is not adjacent or is nested; distinct by tree dump",
 		func(c *hx.Case) {
 			t := c.T
-			tree := gen.DrawBody(t, gen.BodyOpts{Depth: 2, NoOneLine: true})
+			tree := gen.DrawBody(t, gen.BodyOpts{Depth: 2})
 			// choose a body (path) to receive the duplicate
 			target := tree
 			depth := 0
@@ -296,6 +296,27 @@ func TestC02_DuplicateAttr(t *testing.T) {
 			p2 := rapid.IntRange(0, len(kept)).Draw(t, "pos2")
 			kept = append(kept[:p2], append([]ast.Item{ast.Attr{Name: name, Expr: ast.Num{Text: "2"}}}, kept[p2:]...)...)
 			target.Items = kept
+			// a block that now holds more than one item cannot stay in one-line form
+			oneLine := false
+			var fixOneLine func(b *ast.Body)
+			fixOneLine = func(b *ast.Body) {
+				for i, it := range b.Items {
+					if bl, ok := it.(ast.Block); ok {
+						if bl.OneLine && (len(bl.Body.Items) > 1 || len(bl.Body.Blocks()) > 0) {
+							bl.OneLine = false
+							b.Items[i] = bl
+						}
+						if bl.OneLine && len(bl.Body.Items) == 1 {
+							oneLine = true
+						}
+						fixOneLine(bl.Body)
+					}
+				}
+			}
+			fixOneLine(tree)
+			if oneLine {
+				c.Class("one_line_block_with_attribute_present")
+			}
 			dump := ast.DumpBody(tree)
 			c.Set("tree", dump)
 			src, _ := render.File(tree, rchooser{t}, drawBodyOpts(t))
